@@ -184,36 +184,39 @@ theorem bneMulti_eq_map (ln exp : Q → Q) (fl : Bool) (n : Nat) (xs ts ws : Mat
 
 /-! ### the class guard -/
 
-theorem emptyIfAnyZero_of_nonzero (den : List Q) (vals : List XQ) (h : ∀ d ∈ den, d ≠ 0) :
-    emptyIfAnyZero den vals = vals := by
-  unfold emptyIfAnyZero
-  have : den.any (· == 0) = false := by
-    apply List.any_eq_false.mpr
+theorem emptyIfAllZero_of_exists (den : List Q) (vals : List XQ) (h : ∃ d ∈ den, d ≠ 0) :
+    emptyIfAllZero den vals = vals := by
+  unfold emptyIfAllZero
+  have : den.all (· == 0) = false := by
+    apply Bool.eq_false_iff.mpr
+    intro hall
+    obtain ⟨d, hd, hne⟩ := h
+    have := List.all_eq_true.mp hall d hd
+    exact hne (by simpa using this)
+  simp [this]
+
+theorem emptyIfAllZero_of_all (den : List Q) (vals : List XQ) (h : ∀ d ∈ den, d = 0) :
+    emptyIfAllZero den vals = [] := by
+  unfold emptyIfAllZero
+  have : den.all (· == 0) = true := by
+    apply List.all_eq_true.mpr
     intro d hd
     simpa using h d hd
   simp [this]
 
-theorem flatMap_singleton_map {α β : Type} (f : α → β) (l : List α) : l.flatMap (fun x => [f x]) = l.map f := by
-  induction l with
-  | nil => rfl
-  | cons x l ih => simp [List.flatMap_cons, ih]
+/-- the guarded per-task computation: unless every task is degenerate, entry `i` is `val` of slice `i`. -/
+theorem guard_per_task {α : Type} (den : α → Q) (val : α → XQ) (l : List α) (h : ∃ s ∈ l, den s ≠ 0) :
+    emptyIfAllZero (l.map den) (l.map val) = l.map val := by
+  apply emptyIfAllZero_of_exists
+  obtain ⟨s, hs, hne⟩ := h
+  exact ⟨den s, List.mem_map.mpr ⟨s, hs, rfl⟩, hne⟩
 
-theorem guard_per_task {α : Type} (den : α → Q) (val : α → XQ) (l : List α) (h : ∀ s ∈ l, den s ≠ 0) :
-    emptyIfAnyZero (l.map den) (l.map val)
-      = l.flatMap fun s => emptyIfAnyZero ([s].map den) ([s].map val) := by
-  rw [emptyIfAnyZero_of_nonzero _ _ (by
-    intro d hd
-    obtain ⟨s, hs, rfl⟩ := List.mem_map.mp hd
-    exact h s hs)]
-  induction l with
-  | nil => rfl
-  | cons x l ih =>
-    rw [List.flatMap_cons, ← ih (fun s hs => h s (List.mem_cons_of_mem _ hs)),
-      emptyIfAnyZero_of_nonzero _ _ (by
-        intro d hd
-        simp only [List.map_cons, List.map_nil, List.mem_singleton] at hd
-        rw [hd]; exact h x (List.mem_cons_self ..))]
-    rfl
+theorem guard_no_update {α : Type} (den : α → Q) (val : α → XQ) (l : List α) (h : ∀ s ∈ l, den s = 0) :
+    emptyIfAllZero (l.map den) (l.map val) = [] := by
+  apply emptyIfAllZero_of_all
+  intro d hd
+  obtain ⟨s, hs, rfl⟩ := List.mem_map.mp hd
+  exact h s hs
 
 /-! ### `sum(dim=0)` -/
 
